@@ -3,6 +3,7 @@ package main
 import (
 	"fmt"
 	"go/ast"
+	"go/constant"
 	"strings"
 )
 
@@ -61,6 +62,37 @@ func init() {
 				fail("%s acceptConnection: call of AcceptConnection not found", s.file)
 			}
 			fmt.Fprintf(b, "/-- %s acceptConnection: the session handshake (AcceptConnection) runs off the accept loop -/\ndef %s : Bool := %v\n\n", s.file, s.name, v == "go")
+		}
+		// multiplexer receive buffer on both ends (smux default 4 MiB when not assigned)
+		bufEnv := fileConsts(parse("internal/util/buffers/buffer.go"), nil)
+		en := env{"buffers.BufferSize": bufEnv["BufferSize"]}
+		for _, site := range []struct{ file, recv, fn, name string }{
+			{"internal/server/communicator.go", "ConnectionHandler", "HandleConnection", "smuxRecvBufServer"},
+			{"internal/client/upstream/upstream.go", "Upstreams", "creteSession", "smuxRecvBufClient"},
+		} {
+			fd := findFunc(parse(site.file), site.recv, site.fn)
+			val := int64(4194304)
+			if fd == nil {
+				fail("%s: %s not found", site.file, site.fn)
+				continue
+			}
+			bad := false
+			ast.Inspect(fd.Body, func(n ast.Node) bool {
+				as, ok := n.(*ast.AssignStmt)
+				if ok && len(as.Lhs) == 1 && strings.HasSuffix(src(as.Lhs[0]), ".MaxReceiveBuffer") {
+					v := evalExpr(as.Rhs[0], en)
+					if v == nil {
+						bad = true
+					} else {
+						val, _ = constant.Int64Val(v)
+					}
+				}
+				return true
+			})
+			if bad {
+				fail("%s %s: MaxReceiveBuffer is not a constant expression", site.file, site.fn)
+			}
+			fmt.Fprintf(b, "/-- %s %s: smux MaxReceiveBuffer (library default 4194304 when the code does not set it) -/\ndef %s : Nat := %d\n\n", site.file, site.fn, site.name, val)
 		}
 		// client listener: HandleConnection under go
 		lf := parse("internal/client/listener/listener.go")
